@@ -92,7 +92,7 @@ COND = ('run_experiment(name="e1", run="./e1.sh", args=%s, options=%s)\n'
         'run_command(name="c", run="./c.sh", deps=[":e2"])\n' % (json.dumps(ARGS).replace("true", "True"), repr(OPTS)))
 DECL = {"//:e1": (ARGS, OPTS), "//:e2": ([], {})}
 STEPS = ["run-ok", "run-fail", "run-again", "archive", "restore", "gc"]
-TRACE_FILES = ("/repo/src/conductor", "shutil.py", "/json/", "tempfile.py")
+TRACE_FILES = (driver.REPO_SRC + "/conductor", "shutil.py", "/json/", "tempfile.py")
 
 
 def do_step(root, step, t, tracer=None):
